@@ -1037,7 +1037,11 @@ fn run_agent(case: &str, cfg: &str, sink: &mut Sink) {
             let terms: Vec<&Elem> = stmt.map(|s| s.children("term").collect()).unwrap_or_default();
             let mut toks = vec![];
             for (k, new) in [n4, n6].into_iter().enumerate() {
-                let (dels, adds) = observed_filters(terms.get(k).copied());
+                // a family with nothing installed and nothing to install has no term at all: find the
+                // term by its <name>, not by position
+                let fam = if k == 0 { "inet" } else { "inet6" };
+                let term = terms.iter().copied().find(|t| t.child("name").map(|e| e.text()).as_deref() == Some(fam));
+                let (dels, adds) = observed_filters(term);
                 let old = inst.as_ref().map(|(o4, o6)| if k == 0 { o4 } else { o6 });
                 match old {
                     None => {
